@@ -105,7 +105,11 @@ XercesAttrWrapper::getChildNodes() const
 XalanNode*
 XercesAttrWrapper::getFirstChild() const
 {
-    return m_navigator.getFirstChild(m_xercesNode);
+    // In the XPath data model an attribute node has no children.  The
+    // wrapper nodes built ahead of time never had any; when nodes are
+    // mapped on demand, the Xerces Text child must not show up either,
+    // or the child and descendant axes would deliver it.
+    return 0;
 }
 
 
@@ -113,7 +117,7 @@ XercesAttrWrapper::getFirstChild() const
 XalanNode*
 XercesAttrWrapper::getLastChild() const
 {
-    return m_navigator.getLastChild(m_xercesNode);
+    return 0;
 }
 
 
